@@ -415,6 +415,24 @@ impl FieldApi for crrl::ed448::Scalar {
     fn encode(a: Self) -> Vec<u8> { a.encode().to_vec() }
 }
 
+// ModInt256 instances at every encoding-length boundary (200, 208, ..., 248 bits, and 241 bits)
+pub type MI200 = crrl::field::ModInt256<0xFFFFFFFFFFFFFFB5, 0xFFFFFFFFFFFFFFFF, 0xFFFFFFFFFFFFFFFF, 0x00000000000000FF>;
+modint_impl!(MI200, "MI200", "ffffffffffffffffffffffffffffffffffffffffffffffffb5");
+pub type MI208 = crrl::field::ModInt256<0xFFFFFFFFFFFFFED5, 0xFFFFFFFFFFFFFFFF, 0xFFFFFFFFFFFFFFFF, 0x000000000000FFFF>;
+modint_impl!(MI208, "MI208", "fffffffffffffffffffffffffffffffffffffffffffffffffed5");
+pub type MI216 = crrl::field::ModInt256<0xFFFFFFFFFFFFFE87, 0xFFFFFFFFFFFFFFFF, 0xFFFFFFFFFFFFFFFF, 0x0000000000FFFFFF>;
+modint_impl!(MI216, "MI216", "fffffffffffffffffffffffffffffffffffffffffffffffffffe87");
+pub type MI224 = crrl::field::ModInt256<0xFFFFFFFFFFFFFE95, 0xFFFFFFFFFFFFFFFF, 0xFFFFFFFFFFFFFFFF, 0x00000000FFFFFFFF>;
+modint_impl!(MI224, "MI224", "fffffffffffffffffffffffffffffffffffffffffffffffffffffe95");
+pub type MI232 = crrl::field::ModInt256<0xFFFFFFFFFFFFFD67, 0xFFFFFFFFFFFFFFFF, 0xFFFFFFFFFFFFFFFF, 0x000000FFFFFFFFFF>;
+modint_impl!(MI232, "MI232", "fffffffffffffffffffffffffffffffffffffffffffffffffffffffd67");
+pub type MI240 = crrl::field::ModInt256<0xFFFFFFFFFFFFFE2D, 0xFFFFFFFFFFFFFFFF, 0xFFFFFFFFFFFFFFFF, 0x0000FFFFFFFFFFFF>;
+modint_impl!(MI240, "MI240", "fffffffffffffffffffffffffffffffffffffffffffffffffffffffffe2d");
+pub type MI248 = crrl::field::ModInt256<0xFFFFFFFFFFFFFF13, 0xFFFFFFFFFFFFFFFF, 0xFFFFFFFFFFFFFFFF, 0x00FFFFFFFFFFFFFF>;
+modint_impl!(MI248, "MI248", "ffffffffffffffffffffffffffffffffffffffffffffffffffffffffffff13");
+pub type MI241 = crrl::field::ModInt256<0x0000000000000073, 0x0000000000000000, 0x0000000000000000, 0x0001000000000000>;
+modint_impl!(MI241, "MI241", "1000000000000000000000000000000000000000000000000000000000073");
+
 // user-defined moduli of the generic Montgomery field macro (64-bit backend): 3, 4, 6 and 8 limbs
 #[cfg(not(feature = "w32"))]
 mod gfgen_user {
@@ -425,17 +443,24 @@ mod gfgen_user {
     define_gfgen!(GG256, P256, gg256mod, false);
     pub struct P384; impl P384 { const MODULUS: [u64; 6] = [0xFFFFFFFFFFFFFEC3, 0xFFFFFFFFFFFFFFFF, 0xFFFFFFFFFFFFFFFF, 0xFFFFFFFFFFFFFFFF, 0xFFFFFFFFFFFFFFFF, 0xFFFFFFFFFFFFFFFF]; }
     define_gfgen!(GG384, P384, gg384mod, true);
+    // shapes: low limb all ones (Curve448 prime, 7 limbs; P-256 prime, 4 limbs), 5 mod 8 (2^255 - 19)
+    pub struct PC448; impl PC448 { const MODULUS: [u64; 7] = [0xFFFFFFFFFFFFFFFF, 0xFFFFFFFFFFFFFFFF, 0xFFFFFFFFFFFFFFFF, 0xFFFFFFFEFFFFFFFF, 0xFFFFFFFFFFFFFFFF, 0xFFFFFFFFFFFFFFFF, 0xFFFFFFFFFFFFFFFF]; }
+    define_gfgen!(GGC448, PC448, ggc448mod, true);
+    pub struct PP256; impl PP256 { const MODULUS: [u64; 4] = [0xFFFFFFFFFFFFFFFF, 0x00000000FFFFFFFF, 0x0000000000000000, 0xFFFFFFFF00000001]; }
+    define_gfgen!(GGP256, PP256, ggp256mod, false);
+    pub struct P25519; impl P25519 { const MODULUS: [u64; 4] = [0xFFFFFFFFFFFFFFED, 0xFFFFFFFFFFFFFFFF, 0xFFFFFFFFFFFFFFFF, 0x7FFFFFFFFFFFFFFF]; }
+    define_gfgen!(GG25519, P25519, gg25519mod, false);
     pub struct P512; impl P512 { const MODULUS: [u64; 8] = [0xFFFFFFFFFFFFFDC7, 0xFFFFFFFFFFFFFFFF, 0xFFFFFFFFFFFFFFFF, 0xFFFFFFFFFFFFFFFF, 0xFFFFFFFFFFFFFFFF, 0xFFFFFFFFFFFFFFFF, 0xFFFFFFFFFFFFFFFF, 0xFFFFFFFFFFFFFFFF]; }
     define_gfgen!(GG512, P512, gg512mod, false);
 }
 #[cfg(not(feature = "w32"))]
 macro_rules! gfgen_user_impl {
-    ($t:ty, $name:expr, $nl:expr, $bits:expr, $sub:expr) => {
+    ($t:ty, $name:expr, $nl:expr, $bits:expr, $modhex:expr) => {
         impl FieldApi for $t {
             const NAME: &'static str = $name;
             const ENC_LEN: usize = ($bits + 7) / 8;
             const RAW_LEN: usize = 8 * $nl;
-            fn modulus() -> BigUint { (BigUint::from(1u32) << $bits) - BigUint::from($sub as u32) }
+            fn modulus() -> BigUint { hexnum($modhex) }
             common_ops!($t);
             fn raw(b: &[u8], variant: u32) -> Self {
                 let mut x = [0u64; $nl];
@@ -453,13 +478,19 @@ macro_rules! gfgen_user_impl {
     };
 }
 #[cfg(not(feature = "w32"))]
-gfgen_user_impl!(gfgen_user::GG130, "GG130", 3, 130usize, 5);
+gfgen_user_impl!(gfgen_user::GG130, "GG130", 3, 130usize, "3fffffffffffffffffffffffffffffffb");
 #[cfg(not(feature = "w32"))]
-gfgen_user_impl!(gfgen_user::GG256, "GG256", 4, 256usize, 189);
+gfgen_user_impl!(gfgen_user::GG256, "GG256", 4, 256usize, "ffffffffffffffffffffffffffffffffffffffffffffffffffffffffffffff43");
 #[cfg(not(feature = "w32"))]
-gfgen_user_impl!(gfgen_user::GG384, "GG384", 6, 384usize, 317);
+gfgen_user_impl!(gfgen_user::GG384, "GG384", 6, 384usize, "fffffffffffffffffffffffffffffffffffffffffffffffffffffffffffffffffffffffffffffffffffffffffffffec3");
 #[cfg(not(feature = "w32"))]
-gfgen_user_impl!(gfgen_user::GG512, "GG512", 8, 512usize, 569);
+gfgen_user_impl!(gfgen_user::GG512, "GG512", 8, 512usize, "fffffffffffffffffffffffffffffffffffffffffffffffffffffffffffffffffffffffffffffffffffffffffffffffffffffffffffffffffffffffffffffdc7");
+#[cfg(not(feature = "w32"))]
+gfgen_user_impl!(gfgen_user::GGC448, "GGC448", 7, 448usize, "fffffffffffffffffffffffffffffffffffffffffffffffffffffffeffffffffffffffffffffffffffffffffffffffffffffffffffffffff");
+#[cfg(not(feature = "w32"))]
+gfgen_user_impl!(gfgen_user::GGP256, "GGP256", 4, 256usize, "ffffffff00000001000000000000000000000000ffffffffffffffffffffffff");
+#[cfg(not(feature = "w32"))]
+gfgen_user_impl!(gfgen_user::GG25519, "GG25519", 4, 255usize, "7fffffffffffffffffffffffffffffffffffffffffffffffffffffffffffffed");
 
 // ------------------------------------------------------------------------
 // input classes
@@ -1498,7 +1529,21 @@ pub fn run(tr: &mut Trace, rng: &mut Rng, ty: &str, what: &str, plan: &Plan) {
         "GG384" => run_type::<gfgen_user::GG384>(tr, rng, what, plan),
         #[cfg(not(feature = "w32"))]
         "GG512" => run_type::<gfgen_user::GG512>(tr, rng, what, plan),
+        #[cfg(not(feature = "w32"))]
+        "GGC448" => run_type::<gfgen_user::GGC448>(tr, rng, what, plan),
+        #[cfg(not(feature = "w32"))]
+        "GGP256" => run_type::<gfgen_user::GGP256>(tr, rng, what, plan),
+        #[cfg(not(feature = "w32"))]
+        "GG25519" => run_type::<gfgen_user::GG25519>(tr, rng, what, plan),
         "MSpec193" => run_type::<MSpec193>(tr, rng, what, plan),
+        "MI200" => run_type::<MI200>(tr, rng, what, plan),
+        "MI208" => run_type::<MI208>(tr, rng, what, plan),
+        "MI216" => run_type::<MI216>(tr, rng, what, plan),
+        "MI224" => run_type::<MI224>(tr, rng, what, plan),
+        "MI232" => run_type::<MI232>(tr, rng, what, plan),
+        "MI240" => run_type::<MI240>(tr, rng, what, plan),
+        "MI248" => run_type::<MI248>(tr, rng, what, plan),
+        "MI241" => run_type::<MI241>(tr, rng, what, plan),
         "MSpec255" => run_type::<MSpec255>(tr, rng, what, plan),
         "MSpec256" => run_type::<MSpec256>(tr, rng, what, plan),
         _ => panic!("unknown field type {}", ty),
